@@ -320,7 +320,17 @@ pub fn guard<T>(what: &str, f: impl FnOnce() -> T) -> Result<T, Violation> {
             } else {
                 "panic".to_string()
             };
-            Err(Violation::new(format!("panic/{}", what), format!("library call {} panicked: {}", what, msg)))
+            // signature = call site + class of the panic message (digits dropped)
+            let class: String = msg
+                .split_whitespace()
+                .filter(|w| !w.chars().any(|c| c.is_ascii_digit()))
+                .take(5)
+                .collect::<Vec<_>>()
+                .join("-")
+                .chars()
+                .filter(|c| c.is_ascii_alphanumeric() || *c == '-')
+                .collect();
+            Err(Violation::new(format!("panic/{}/{}", what, class), format!("library call {} panicked: {}", what, msg)))
         }
     }
 }
